@@ -14,15 +14,15 @@ import (
 
 // Profile narrows the value domain where a caller precondition demands it.
 type Profile struct {
-	MaxStr      int  // maximal string length (B-tree varchar keys: 24)
-	NoNull      bool // never generate NULL
-	NoNegative  bool // only values with a literal form in the SQL front end
-	SmallOnly   bool // only the small dense domain (joins, histories that need hits)
-	NoSentinels bool // exclude the engine's in-band sentinel values (MaxInt32, MinInt32, +-MaxFloat32, sentinel strings)
-	NoSentinelStr bool // exclude only the sentinel strings (known finding KF-C06-sentinel-strings)
-	VeryLongStr   bool // also generate 1300-3900 byte strings (documented maximum "a little less than 4KB")
-	NoNullIndexed bool // NULL only in columns without an index (known finding KF-C06-null-in-indexed-column)
-	OnExcluded  func(name string) // called when a draw was redirected because of a known-finding exclusion
+	MaxStr        int               // maximal string length (B-tree varchar keys: 24)
+	NoNull        bool              // never generate NULL
+	NoNegative    bool              // only values with a literal form in the SQL front end
+	SmallOnly     bool              // only the small dense domain (joins, histories that need hits)
+	NoSentinels   bool              // exclude the engine's in-band sentinel values (MaxInt32, MinInt32, +-MaxFloat32, sentinel strings)
+	NoSentinelStr bool              // exclude only the sentinel strings (known finding KF-C06-sentinel-strings)
+	VeryLongStr   bool              // also generate 1300-3900 byte strings (documented maximum "a little less than 4KB")
+	NoNullIndexed bool              // NULL only in columns without an index (known finding KF-C06-null-in-indexed-column)
+	OnExcluded    func(name string) // called when a draw was redirected because of a known-finding exclusion
 }
 
 var intBoundary = []int32{-1, -5, math.MaxInt32 - 1, math.MinInt32 + 1, 1 << 16, 255, 256, 1 << 24}
